@@ -1,4 +1,4 @@
-import PewProofs.Cli
+import PewProofs.CliLoad
 
 /-! # C20 — property theorems (statements only depend on `PewModel.Cli`) -/
 namespace Pew.Cli
@@ -381,7 +381,7 @@ theorem filter_eq_spec (f : String → Grid Tok → Grid Tok) (sel : Option (Lis
     (hnd : l.elements.Nodup) (hsel : ∀ s, sel = some s → s.Nodup) :
     LaserEq (filterStep f sel l) (filterSpec f sel l) := by
   obtain ⟨h1, h2, h3, h4, h5⟩ := filter_only_selected f sel l hnd hsel
-  exact ⟨h1, h2, h3, h4, fun i j _ _ => funext fun n => h5 i j n⟩
+  exact ⟨h1, h2, h3, h4, fun i j _ _ => funext fun n => (h5 i j n).trans (filterSpec_get f sel l i j n).symm⟩
 
 /-- `stack_eq_spec` lifted to images: stacking fails exactly when the specification has no result
 (no inputs, or inputs with different element lists); otherwise the result has the elements and the
@@ -610,6 +610,344 @@ theorem run_all_or_nothing (a : Args)
   · rw [h, hok] at hst
     cases hst
 
+/-! ## loading: which library call delivers an input, and with which configuration -/
+
+/-- **The configuration overlay** (`load`, lines 62-70).  The statements of the code — a fresh
+`Config()`, then `SpotConfig(*spotsize)` for an (x, y) spot spacing or an assignment of `spotsize`,
+then assignments of `speed` and `scantime` (which a `SpotConfig` does not store) — leave the stored
+configuration the rule `configSpec` names: a spot configuration of exactly the two reported spacings,
+or a raster configuration whose every field is the loader's parameter when it reported one and the
+`Config()` default when it did not. -/
+theorem configOf_spec (dSpot dSpeed dScan : Tok) (p : Params) :
+    configOf dSpot dSpeed dScan p = configSpec dSpot dSpeed dScan p :=
+  configOf_eq dSpot dSpeed dScan p
+
+/-- non-vacuity: a Nu directory (x, y spacing and a scan time that is then dropped), a Thermo CSV
+(scan time only), an Agilent batch (nothing but the scan time), a PerkinElmer directory (all three) -/
+example :
+    configOf 35 140 25 ⟨some (.two 5 10), none, some 7⟩ = .spot 5 10 ∧
+    configOf 35 140 25 ⟨none, none, some 7⟩ = .raster 35 140 7 ∧
+    configOf 35 140 25 ⟨some (.one 30), some 100, some 7⟩ = .raster 30 100 7 ∧
+    configOf 35 140 25 ⟨none, none, none⟩ = .raster 35 140 25 := by
+  refine ⟨?_, ?_, ?_, ?_⟩ <;> decide
+
+/-- **The rows of the table exclude one another**: for every path at most one row applies, whatever
+the library predicates answer — so `table` is a table, not a cascade. -/
+theorem table_exclusive (s : Source) : (table.filter (·.guard s)).length ≤ 1 := by
+  have h := guards_exclusive s
+  have e : [isAgilentBatch s, isPerkinDir s, isCsvDir s, isNpzFile s, isThermoCsv s, isTextImage s]
+      = table.map (·.guard s) := rfl
+  rw [e, List.filter_map, List.length_map] at h
+  exact h
+
+/-- **The dispatch of `load` is the table.**  For every path and every behaviour of the library
+calls, `load` as the code branches (directory before suffix, `.b` before the directory sniffers,
+lower-cased suffixes, the Thermo sniffer on `.csv` files, the loop over the two lists of Agilent
+collection methods with its `except ValueError: pass`, the early `return` of an .npz with its stored
+configuration, the sequential configuration overlay) equals `loadSpec`: the row of `table` that
+applies names the candidate calls, `choose` says which of them delivers (the first that does not end
+in a `ValueError`; the last successful one when `load_info` itself raises `ValueError`; a traceback
+when `load_info` fails otherwise after a successful call), the image has
+the loader's elements and data and the configuration `configSpec` makes of its parameters; no row —
+or no successful candidate — is a usage error (`parser.error`, exit status 2), any exception other
+than `ValueError` ends the run with a traceback (`.crash`). -/
+theorem load_eq_spec (d : Tok × Tok × Tok) (s : Source) : loadMech d s = loadSpec d s := by
+  unfold loadMech loadSpec
+  rw [filter_table]
+  cases hd : s.isDir
+  · simp only [Bool.false_eq_true, if_false]
+    by_cases h2 : s.sfx = ".npz"
+    · simp [isAgilentBatch, isPerkinDir, isCsvDir, isNpzFile, isThermoCsv, isTextImage, hd, h2, rowNpz, Source.infoFor, choose_single, Source.image]
+      cases s.npz <;> rfl
+    · by_cases h3 : s.sfx = ".csv"
+      · simp only [isAgilentBatch, isPerkinDir, isCsvDir, isNpzFile, isThermoCsv, isTextImage, hd, h3, sniffIs]
+        cases hs : s.sniff with
+        | ok fmt =>
+          by_cases ht : isThermo fmt = true
+          · have ht' : (fmt == "columns" || fmt == "rows") = true := ht
+            simp [ht, ht', rowThermo, Source.infoFor, callOnce_spec]
+          · have ht' : (fmt == "columns" || fmt == "rows") = false := by simpa [isThermo] using ht
+            simp [ht, ht', rowText, Source.infoFor, callOnce_spec]
+        | valueError => simp [Outcome.isOther]
+        | otherError => simp [Outcome.isOther]
+      · by_cases h4 : s.sfx = ".txt"
+        · simp [isAgilentBatch, isPerkinDir, isCsvDir, isNpzFile, isThermoCsv, isTextImage, hd, h4, rowText, Source.infoFor, callOnce_spec]
+        · by_cases h5 : s.sfx = ".text"
+          · simp [isAgilentBatch, isPerkinDir, isCsvDir, isNpzFile, isThermoCsv, isTextImage, hd, h5, rowText, Source.infoFor, callOnce_spec]
+          · simp [isAgilentBatch, isPerkinDir, isCsvDir, isNpzFile, isThermoCsv, isTextImage, hd, h2, h3, h4, h5]
+  · simp only [if_true]
+    by_cases h1 : s.sfx = ".b"
+    · simp only [isAgilentBatch, isPerkinDir, isCsvDir, isNpzFile, isThermoCsv, isTextImage, hd, h1]
+      simp only [Bool.true_and, beq_self_eq_true, if_true, bne_self_eq_false, Bool.false_and, Bool.and_false,
+        Bool.false_eq_true, if_false, Bool.not_true, List.append_nil]
+      have hi : s.infoFor rowAgilent = s.info := by simp [Source.infoFor, rowAgilent, agilentMethods]
+      rw [hi]
+      exact choose_agilent d s
+    · cases hp : s.perkinValid
+      · cases hc : s.csvValid
+        · simp [isAgilentBatch, isPerkinDir, isCsvDir, isNpzFile, isThermoCsv, isTextImage, hd, h1, hp, hc]
+        · simp [isAgilentBatch, isPerkinDir, isCsvDir, isNpzFile, isThermoCsv, isTextImage, hd, h1, hp, hc, rowCsvDir, Source.infoFor, callOnce_spec]
+      · simp [isAgilentBatch, isPerkinDir, isCsvDir, isNpzFile, isThermoCsv, isTextImage, hd, h1, hp, rowPerkin, Source.infoFor, callOnce_spec]
+
+/-- reading `load_eq_spec` for a successful load: exactly one row of the table applies to the path,
+the delivering call is one of its candidates, and the image is what that call gives under the
+configuration rule (for an .npz: the stored image itself) -/
+theorem load_ok_table (d : Tok × Tok × Tok) (s : Source) (ld : Loader) (l : Laser)
+    (h : loadMech d s = .ok (ld, l)) :
+    ∃ row ∈ table, row.guard s = true ∧ ld ∈ row.candidates ∧ s.image d ld = .ok l ∧
+      ∀ row' ∈ table, row'.guard s = true → row' = row := by
+  rw [load_eq_spec] at h
+  unfold loadSpec at h
+  split at h
+  · rename_i row hrow
+    have hmem : row ∈ table.filter (·.guard s) := by rw [hrow]; simp
+    obtain ⟨hin, hg⟩ := List.mem_filter.mp hmem
+    have hm := choose_ok_mem _ _ ld l h
+    obtain ⟨ld', hld', heq⟩ := List.mem_map.mp hm
+    simp only [Prod.mk.injEq] at heq
+    obtain ⟨rfl, himg⟩ := heq
+    refine ⟨row, hin, hg, hld', himg, ?_⟩
+    intro row' hin' hg'
+    have : row' ∈ table.filter (·.guard s) := List.mem_filter.mpr ⟨hin', hg'⟩
+    rw [hrow] at this
+    simpa using this
+  · split at h <;> cases h
+
+/-- an input no row of the table applies to is rejected before anything is read: a usage error
+(`raise ValueError("unknown extention …")` reaches `parser.error`) — except that a `.csv` file whose
+first lines cannot even be sniffed ends as the sniffer's exception dictates -/
+theorem load_unsupported (d : Tok × Tok × Tok) (s : Source) (h : ∀ row ∈ table, row.guard s = false) :
+    loadMech d s = .error (if !s.isDir && s.sfx == ".csv" && s.sniff.isOther then .crash else .usage) := by
+  rw [load_eq_spec]
+  unfold loadSpec
+  have : table.filter (·.guard s) = [] := by
+    rw [List.filter_eq_nil_iff]
+    intro row hrow
+    simp [h row hrow]
+  rw [this]
+  simp only
+  split <;> rfl
+
+/-- non-vacuity, evaluated: `x.B` is an Agilent batch whose batch log cannot be read (the second
+method list delivers); a directory `x.d` with csv files; `a.CSV` with a Thermo header; `a.csv`
+without; `a.dat` and an empty directory are not supported -/
+example :
+    let ld : Loaded := { elements := ["A"], data := ⟨1, 1, fun _ _ _ => 0⟩, params := ⟨none, none, some 7⟩ }
+    let src (dir : Bool) (sfx : String) (csv : Bool) (sn : String) (call : Loader → Outcome Loaded) : Source :=
+      { path := ⟨"R", "x", sfx⟩, present := true, isDir := dir, perkinValid := false, csvValid := csv,
+        sniff := .ok sn, info := .ok (), call := call, npz := .valueError }
+    let second : Loader → Outcome Loaded := fun l => if l = .agilent ["acq_method_xml"] then .ok ld else .valueError
+    let all : Loader → Outcome Loaded := fun _ => .ok ld
+    let who (s : Source) : Option Loader := (loadMech (35, 140, 25) s).toOption.map (·.1)
+    who (src true ".B" false "" second) = some (.agilent ["acq_method_xml"]) ∧
+    who (src true ".d" true "" all) = some .csvdir ∧
+    who (src false ".CSV" false "rows" all) = some .thermo ∧
+    who (src false ".csv" false "unknown" all) = some .textimage ∧
+    who (src false ".dat" false "" all) = none ∧
+    who (src true "" false "" all) = none := by
+  refine ⟨?_, ?_, ?_, ?_, ?_, ?_⟩ <;> decide
+
+
+/-! ## what a user finds after a run: input by input -/
+
+/-- a convert / filter run whose arguments are accepted ends with status ok and leaves, for every
+input in order, the files of `specItem` -/
+theorem run_nonstack (a : Args)
+    (hnd : ∀ f sel, a.cmd = .filter f sel → ∀ i ∈ a.inputs, i.laser.elements.Nodup)
+    (hsel : ∀ f s, a.cmd = .filter f (some s) → s.Nodup)
+    (outs : List Path) (hp : parse a = .ok outs) (hns : a.cmd.isStack = false) :
+    outs.length = a.inputs.length ∧ (∀ o ∈ outs, lower o.suffix = a.format) ∧
+    RunEq (run a) ⟨.ok, (enum ((a.inputs.map (·.laser)).zip outs)).flatMap (specItem a.cmd)⟩ := by
+  obtain ⟨hne, hf, hd⟩ := parse_ok_facts a outs hp
+  have hso : specOutputs a.cmd.isStack (a.inputs.map (·.path)) a.format a.output a.isDir = some outs := by
+    rw [outputs_spec] at hd
+    split at hd
+    · rename_i o ho; cases hd; exact ho
+    · cases hd
+  have hsuf := specOutputs_suffix _ _ _ _ _ outs hf hso
+  rw [hns] at hd
+  have hlen := (outputs_placed (a.inputs.map (·.path)) a.format a.output a.isDir outs (by simpa using hne) hd).1
+  refine ⟨by simpa using hlen, hsuf, ?_⟩
+  have hwork : ∀ x ∈ enum ((a.inputs.map (·.laser)).zip outs),
+      lower x.2.2.suffix = a.format ∧ ∃ i ∈ a.inputs, x.2.1 = i.laser := by
+    intro x hx
+    have hz := List.of_mem_zip (mem_enum _ x hx)
+    obtain ⟨i, hi, hil⟩ := List.mem_map.mp hz.1
+    exact ⟨hsuf _ hz.2, i, hi, hil.symm⟩
+  simp only [run, hp]
+  cases hc : a.cmd with
+  | stack o pad => simp [hc, Cmd.isStack] at hns
+  | convert cfg els =>
+    exact loop_refines_spec (.convert cfg els) rfl _ (by intro f sel h; cases h)
+      (by intro f s h; cases h) (fun x hx _ => by rw [(hwork x hx).1]; exact hf)
+  | filter f sel =>
+    exact loop_refines_spec (.filter f sel) rfl _
+      (fun f' sel' h x hx => by
+        obtain ⟨i, hi, hil⟩ := (hwork x hx).2
+        rw [hil]; exact hnd f sel hc i hi)
+      (fun f' s h => by cases h; exact hsel f s hc)
+      (fun x hx _ => by rw [(hwork x hx).1]; exact hf)
+
+/-- what input number `k` of an accepted convert / filter run leaves behind: every file the
+specification names for it is among the files of the run -/
+theorem run_item (a : Args)
+    (hnd : ∀ f sel, a.cmd = .filter f sel → ∀ i ∈ a.inputs, i.laser.elements.Nodup)
+    (hsel : ∀ f s, a.cmd = .filter f (some s) → s.Nodup)
+    (outs : List Path) (hp : parse a = .ok outs) (hns : a.cmd.isStack = false)
+    (k : Nat) (hk : k < a.inputs.length) :
+    ∃ hko : k < outs.length, lower outs[k].suffix = a.format ∧ (run a).status = .ok ∧
+      ∀ g ∈ specItem a.cmd (k, a.inputs[k].laser, outs[k]), ∃ f ∈ (run a).files, FileEq f g := by
+  obtain ⟨hlen, hsuf, hst, hfs⟩ := run_nonstack a hnd hsel outs hp hns
+  have hko : k < outs.length := by omega
+  refine ⟨hko, hsuf _ (List.getElem_mem hko), hst, ?_⟩
+  intro g hg
+  apply FilesEq.exists_left hfs
+  rw [List.mem_flatMap]
+  have hk' : k < (a.inputs.map (·.laser)).length := by simpa using hk
+  have := mem_enum_zip (a.inputs.map (·.laser)) outs k hk' hko
+  simp only [List.getElem_map] at this
+  exact ⟨_, this, hg⟩
+
+/-- **convert, input by input.**  When the arguments of a `convert` run are accepted (`parse`), the
+run ends with status ok and, for EVERY input `k`, the derived output `outs[k]` (see `outputs_placed`
+for where that is) holds the image of input `k` with exactly the requested elements that this input
+has, in the image's own order, the data untouched, and the explicit `--config` when one was given —
+in the requested format (`Written`: the .npz / .vtk file at `outs[k]`, or one text image per kept
+element beside it).  An input that has none of the requested elements is the only one that leaves
+nothing (`restrict_skips_iff`). -/
+theorem convert_output (a : Args) (cfg : Option Cfg) (els : Option (List String))
+    (hc : a.cmd = .convert cfg els) (outs : List Path) (hp : parse a = .ok outs)
+    (k : Nat) (hk : k < a.inputs.length) :
+    ∃ hko : k < outs.length, (run a).status = .ok ∧
+      match els with
+      | none =>
+        Written (run a).files a.format
+          { a.inputs[k].laser with config := cfg.getD a.inputs[k].laser.config } outs[k]
+      | some req =>
+        a.inputs[k].laser.elements.filter (fun e => req.contains e) ≠ [] →
+        Written (run a).files a.format
+          { elements := a.inputs[k].laser.elements.filter (fun e => req.contains e),
+            data := a.inputs[k].laser.data, config := cfg.getD a.inputs[k].laser.config } outs[k] := by
+  obtain ⟨hko, hsuf, hst, hfiles⟩ := run_item a (by intro f sel h; rw [hc] at h; cases h)
+    (by intro f s h; rw [hc] at h; cases h) outs hp (by rw [hc]; rfl) k hk
+  refine ⟨hko, hst, ?_⟩
+  rw [hc] at hfiles
+  simp only [specItem, specStep, hsuf] at hfiles
+  cases els with
+  | none =>
+    simp only [restrictSpec] at hfiles
+    exact written_of_specFiles _ _ _ _ hfiles
+  | some req =>
+    intro hne
+    simp only [restrictSpec, hne, if_false] at hfiles
+    exact written_of_specFiles _ _ _ _ hfiles
+
+/-- what `filterSpec` (the image `filter_output` and `run_refines_spec` speak of) is, read off its
+definition: names, configuration and shape of the input; a selected element holds the filter of the
+original element, every other element the original values -/
+theorem filterSpec_reads (f : String → Grid Tok → Grid Tok) (sel : Option (List String)) (l : Laser) :
+    (filterSpec f sel l).elements = l.elements ∧ (filterSpec f sel l).config = l.config ∧
+    (filterSpec f sel l).data.h = l.data.h ∧ (filterSpec f sel l).data.w = l.data.w ∧
+    ∀ i j n, (filterSpec f sel l).data.get i j n =
+      if selected sel l n = true then (f n (l.field n)).get i j else l.data.get i j n :=
+  ⟨rfl, rfl, rfl, rfl, filterSpec_get f sel l⟩
+
+example : (filterSpec (fun _ g => { g with get := fun i j => g.get i j + 10 }) (some ["B", "Z"])
+    { elements := ["A", "B"], data := ⟨1, 1, fun _ _ n => if n = "A" then 1 else 2⟩, config := .raster 1 2 3 }).data.get 0 0 "B" = 12 := by
+  decide
+
+/-- **filter, input by input.**  When the arguments of a `filter` run are accepted, the run ends
+with status ok and, for EVERY input `k`, the derived output `outs[k]` holds the image `filterSpec`
+describes: the element names, configuration and shape of input `k`; every selected element that
+the input has (all of them without `--elements`; a requested name another input has is skipped)
+holds the library filter applied to the ORIGINAL element; every other element is unchanged. -/
+theorem filter_output (a : Args) (flt : Nat → String → Grid Tok → Grid Tok) (sel : Option (List String))
+    (hc : a.cmd = .filter flt sel)
+    (hnd : ∀ i ∈ a.inputs, i.laser.elements.Nodup) (hsel : ∀ s, sel = some s → s.Nodup)
+    (outs : List Path) (hp : parse a = .ok outs) (k : Nat) (hk : k < a.inputs.length) :
+    ∃ hko : k < outs.length, (run a).status = .ok ∧
+      Written (run a).files a.format (filterSpec (flt k) sel a.inputs[k].laser) outs[k] := by
+  obtain ⟨hko, hsuf, hst, hfiles⟩ := run_item a (fun _ _ _ => hnd)
+    (by intro f s h; rw [hc] at h; cases h; exact hsel s rfl) outs hp (by rw [hc]; rfl) k hk
+  refine ⟨hko, hst, ?_⟩
+  rw [hc] at hfiles
+  simp only [specItem, specStep, hsuf] at hfiles
+  exact written_of_specFiles _ _ _ _ hfiles
+
+/-- **stack.**  When the arguments of a `stack` run are accepted and the inputs share their element
+names, the run ends with status ok and the single requested output file holds the stacked image
+`m`: the element names and the configuration of the FIRST input, and data `stack o pad datas = some
+m.data` — so `stack_shape` gives its shape and `stack_pixel_vertical` / `stack_pixel_horizontal` say
+where every pixel comes from: input `k`'s pixel `(i, j)` sits at row `h₀ + … + h_{k-1} + i`, column
+`j` (vertically; columns and rows swapped horizontally), the pad value everywhere else. -/
+theorem stack_output (a : Args) (o : Orient) (pad : Tok) (hc : a.cmd = .stack o pad)
+    (outs : List Path) (hp : parse a = .ok outs)
+    (l0 : Laser) (rest : List Laser) (hin : a.inputs.map (·.laser) = l0 :: rest)
+    (hall : ∀ l ∈ rest, l.elements = l0.elements) :
+    ∃ out, a.output = some out ∧ a.isDir out = false ∧ outs = [out] ∧ (run a).status = .ok ∧
+      ∃ m : Laser, m.elements = l0.elements ∧ m.config = l0.config ∧
+        stack o (fun _ => pad) ((l0 :: rest).map (·.data)) = some m.data ∧
+        Written (run a).files a.format m out := by
+  obtain ⟨hne, hf, hd⟩ := parse_ok_facts a outs hp
+  rw [hc] at hd
+  obtain ⟨out, hout, hdir, hsfx, houts⟩ := outputs_stack _ _ _ _ _ hd
+  obtain ⟨g, hg, -, -⟩ := stack_shape o (fun _ => pad) ((l0 :: rest).map (·.data)) (by simp)
+  have hallb : ((l0 :: rest).all fun l => l.elements == l0.elements) = true := by
+    simp only [List.all_cons, beq_self_eq_true, Bool.true_and, List.all_eq_true, beq_iff_eq]
+    exact hall
+  have hst : stackLasers o pad (l0 :: rest) = some { elements := l0.elements, data := g, config := l0.config } := by
+    simp only [stackLasers, hallb, if_true, hg, Option.map_some]
+  have hsv := save_spec { elements := l0.elements, data := g, config := l0.config } out (by rw [hsfx]; exact hf)
+  have hrun : run a = ⟨.ok, specFiles a.format { elements := l0.elements, data := g, config := l0.config } out⟩ := by
+    simp only [run, hp, hc, hin, hst, houts, hsv, hsfx]
+  refine ⟨out, hout, hdir, houts, by rw [hrun], { elements := l0.elements, data := g, config := l0.config },
+    rfl, rfl, hg, ?_⟩
+  rw [hrun]
+  exact written_of_specFiles _ _ _ _ (fun f hf' => ⟨f, hf', FileEq.refl f⟩)
+
+/-- **Nothing else is written**: the paths of the files a run leaves behind are exactly the paths
+the specification names, in the same order (so the three theorems above describe every file). -/
+theorem run_paths (a : Args)
+    (hnd : ∀ f sel, a.cmd = .filter f sel → ∀ i ∈ a.inputs, i.laser.elements.Nodup)
+    (hsel : ∀ f s, a.cmd = .filter f (some s) → s.Nodup) :
+    (run a).files.map (·.path) = (specRun a).files.map (·.path) :=
+  FilesEq.paths (run_refines_spec a hnd hsel).2
+
+/-! ## the whole command line, from the paths on -/
+
+/-- **`main` from the paths on refines the specification.**  For every command line — every kind of
+input path and every behaviour of the library predicates and loaders (`Source`), `--calibrate`, and
+everything `run_refines_spec` covers — `main` as the code runs (`check_exists`; `load` of every input
+in order with its dispatch, fallbacks and configuration overlay; `ValueError` caught into
+`parser.error`, other exceptions fatal; `--calibrate` not implemented; then the run proper) leaves
+what the specification says: the images the TABLE's loaders deliver under the configuration RULE,
+processed and written as `specRun` says; a missing or unsupported or unreadable input, or
+`--calibrate`, is an error that writes nothing.  Hypotheses as in `run_refines_spec`, on the
+loaded images (only for `filter`). -/
+theorem main_refines_spec (c : CmdLine)
+    (hnd : ∀ f sel, c.cmd = .filter f sel → ∀ ls, c.sources.mapM (loadSpec c.defaults) = .ok ls →
+      ∀ x ∈ ls, x.2.elements.Nodup)
+    (hsel : ∀ f s, c.cmd = .filter f (some s) → s.Nodup) :
+    RunEq (mainRun c) (specMain c) := by
+  have e : loadMech c.defaults = loadSpec c.defaults := funext (load_eq_spec c.defaults)
+  unfold mainRun specMain mainWith
+  rw [e]
+  split
+  · exact RunEq.refl _
+  · cases hl : c.sources.mapM (loadSpec c.defaults) with
+    | error e => exact RunEq.refl _
+    | ok ls =>
+      simp only
+      split
+      · exact RunEq.refl _
+      · apply run_refines_spec
+        · intro f sel hcmd i hi
+          simp only [CmdLine.args, List.mem_map] at hi
+          obtain ⟨x, hx, rfl⟩ := hi
+          exact hnd f sel hcmd ls hl x.2 (List.of_mem_zip hx).2
+        · exact hsel
+
+
 /-! ### non-vacuity of the whole-run theorems: concrete runs, evaluated -/
 namespace Ex
 
@@ -697,6 +1035,53 @@ example :
       [(0, exC, ⟨"R", "a", ".NPZ"⟩), (1, exC, ⟨"R", "b", ".txt"⟩), (2, exC, ⟨"R", "c", ".npz"⟩)]
     (loop (.convert none none) work []).status = .error ∧
       (loop (.convert none none) work []).files.map (·.path) = [⟨"R", "a", ".NPZ"⟩] := by decide
+
+/-! the input-by-input theorems on the three runs above -/
+example : (parse exConvert).toOption = some [⟨"R/out", "a", ".csv"⟩, ⟨"R/out", "d", ".csv"⟩, ⟨"R/out", "c", ".csv"⟩] := by decide
+example : ∃ outs, parse exConvert = .ok outs ∧ 2 < exConvert.inputs.length := ⟨_, rfl, by decide⟩
+/-- input 2 (`S/c.b`) of the convert run: the text images of A and C in `R/out` -/
+example : ∀ n ∈ ["A", "C"], ∃ f ∈ (run exConvert).files, f.path = ⟨"R/out", "c_" ++ n, ".csv"⟩ ∧
+    ∃ g, f.content = .csv g ∧ GridEq g (exC.field n) := by
+  obtain ⟨_, _, h⟩ := convert_output exConvert _ _ rfl _ (rfl : parse exConvert = .ok _) 2 (by decide)
+  exact (h (by decide)).2.2 rfl
+/-- input 1 (`R/in/b.csv`) of the filter run -/
+example : ∃ f ∈ (run exFilter).files, f.path = ⟨"R/in", "b", ".npz"⟩ ∧
+    ∃ m, f.content = .npz m ∧ LaserEq m (filterSpec (exF 1) (some ["B", "C"]) exB) := by
+  obtain ⟨_, _, h⟩ := filter_output exFilter _ _ rfl
+    (by intro i hi
+        simp only [exFilter, List.mem_cons, List.not_mem_nil, or_false] at hi
+        rcases hi with rfl | rfl <;> decide)
+    (by intro s h; cases h; decide) _ (rfl : parse exFilter = .ok _) 1 (by decide)
+  exact h.1 rfl
+/-- the stack run -/
+example (o : Orient) : ∃ m : Laser, m.config = .raster 1 2 3 ∧
+    stack o (fun _ => -1) [exS1.data, exS2.data, exS3.data] = some m.data ∧
+    ∃ f ∈ (run (exStack o)).files, f.path = ⟨"R", "out", ".NPZ"⟩ ∧ ∃ m', f.content = .npz m' ∧ LaserEq m' m := by
+  obtain ⟨out, ho, _, _, _, m, _, hcfg, hst, hw⟩ := stack_output (exStack o) o (-1) rfl _
+    (by cases o <;> rfl : parse (exStack o) = .ok [⟨"R", "out", ".NPZ"⟩]) exS1 [exS2, exS3] rfl (by decide)
+  cases ho
+  exact ⟨m, hcfg, hst, hw.1 rfl⟩
+
+/-! `main` from the paths on: `stack x.B a.npz --output R/out.npz` where the batch log of `x.B` cannot be
+read (the second method list delivers, scan time 7 from the loader) -/
+def exLoaded : Loaded := { elements := ["A"], data := ⟨1, 2, fun _ j _ => 10 + j⟩, params := ⟨none, none, some 7⟩ }
+def exSrcB : Source :=
+  { path := ⟨"R", "x", ".B"⟩, present := true, isDir := true, perkinValid := false, csvValid := false,
+    sniff := .valueError, info := .ok (), npz := .valueError,
+    call := fun l => if l = .agilent ["acq_method_xml"] then .ok exLoaded else .valueError }
+def exSrcNpz : Source :=
+  { path := ⟨"R", "a", ".npz"⟩, present := true, isDir := false, perkinValid := false, csvValid := false,
+    sniff := .valueError, info := .ok (), npz := .ok exS2, call := fun _ => .otherError }
+def exMain (calibrate : Bool) : CmdLine :=
+  { cmd := .stack .vertical (-1), calibrate := calibrate, sources := [exSrcB, exSrcNpz], format := ".npz",
+    output := some ⟨"R", "out", ".npz"⟩, isDir := fun _ => false, defaults := (35, 140, 25) }
+example : (mainRun (exMain false)).status = .ok := by decide
+example : (mainRun (exMain false)).files.map (fun f => match f.content with
+      | .npz l => some (l.elements, l.config, l.data.h, l.data.w)
+      | _ => none) = [some (["A"], .raster 35 140 7, 3, 2)] := by decide
+example : (mainRun (exMain true)).status = .error ∧ (mainRun (exMain true)).files.length = 0 := by decide
+example (b : Bool) : RunEq (mainRun (exMain b)) (specMain (exMain b)) :=
+  main_refines_spec (exMain b) (by intro f sel h; cases b <;> cases h) (by intro f s h; cases b <;> cases h)
 
 end Ex
 
